@@ -154,9 +154,35 @@ def gate_file(path):
     return problems
 
 
-def gate_all():
+REQ_RE = re.compile(r"(?:From\s+PV\s+)?Require\s+(?:Import\s+|Export\s+)?([^.]*(?:\.[A-Za-z_][A-Za-z0-9_']*)*)\s*\.(?:\s|$)")
+
+
+def dep_closure(targets):
+    """.v files (absolute) in the PV project that the given .vo/.v targets depend on, transitively."""
+    todo = []
+    for t in targets:
+        t = t[:-1] if t.endswith(".vo") else t
+        todo.append(os.path.join(COQ, t))
+    seen = set()
+    while todo:
+        f = todo.pop()
+        if f in seen or not os.path.exists(f):
+            continue
+        seen.add(f)
+        src = strip_coq_comments(open(f).read())
+        for m in re.finditer(r"\bRequire\b([^.]|\.(?=[A-Za-z_]))*\.", src):
+            for name in re.findall(r"\b(?:PV\.)?([A-Z][A-Za-z0-9_]*)\.([A-Za-z_][A-Za-z0-9_']*)\b", m.group(0)):
+                cand = os.path.join(COQ, name[0], name[1] + ".v")
+                if os.path.exists(cand):
+                    todo.append(cand)
+    return sorted(seen)
+
+
+def gate_all(targets=None):
+    """Source gate over the dependency closure of the targets (all files when targets is None)."""
     problems = []
-    for path in sorted(glob.glob(os.path.join(COQ, "**", "*.v"), recursive=True)):
+    files = dep_closure(targets) if targets else sorted(glob.glob(os.path.join(COQ, "**", "*.v"), recursive=True))
+    for path in files:
         for ln, msg in gate_file(path):
             problems.append("%s:%d: %s" % (os.path.relpath(path, VERIF), ln, msg))
     cp = os.path.join(COQ, "_CoqProject")
@@ -314,7 +340,7 @@ class Ctx:
 
     def coq(self, targets, what="coq build"):
         t = time.time()
-        probs = gate_all()
+        probs = gate_all(targets)
         if probs:
             p = self.write_replay("gate", "source gate refused the Coq development:\n" + "\n".join(probs))
             self.brokens.append(("source gate: " + probs[0], p))
